@@ -391,3 +391,46 @@ def parallel_case(case: dict[str, Any], root: str, n: int = 2) -> dict[str, Any]
             n, w["status"], ref2["status"], sorted(wm - rm)[:3], sorted(rm - wm)[:3], (w.get("crash") or "")[-300:])
         out["label"] = "warm-after-parallel"
     return out
+
+
+# ------------------------------------------------------------------------------------------------
+# Outputs of a single-step case for the determinism check (C10): the cold build (writing a cache) and the warm
+# build on it, messages in the order printed. Run by harness/c10_runner.py inside an interpreter started with a given
+# PYTHONHASHSEED (the forked build processes inherit the seed).
+def outputs_case(case: dict[str, Any], root: str) -> dict[str, Any]:
+    out: dict[str, Any] = {"name": case["name"], "file": case.get("file", ""), "skipped": None}
+    text = case["main"]
+    if case["name"].endswith(("-skip", "-xfail", "-posix", "-windows")) or "# cmd" in text or "plugin" in text or any("plugin" in k for k in case["files"]) \
+            or any(re.search(r"\.\d+$", k) for k in list(case["files"]) + case["deletes"]):
+        out["skipped"] = "skipped by the repository / unsupported / multi-step"
+        return out
+    flags = re.search(r"# flags: (.*)$", text, flags=re.M)
+    flag_list = [x for x in (flags.group(1).split() if flags else []) if x not in ("-v", "-vv", "--verbose")]
+    flag_list += ["--no-site-packages", "--no-error-summary"]
+    if any(x.startswith(("--cache-dir", "--config-file", "--no-incremental", "--incremental", "--sqlite", "--no-sqlite", "--cache-fine", "--num-workers",
+                         "-n", "--junit", "--shadow-file", "--bazel", "--skip")) or x.endswith("-report") for x in flag_list):
+        out["skipped"] = "flags move the cache / config"
+        return out
+    src, cache = os.path.join(root, "src"), os.path.join(root, "cache")
+    os.makedirs(src, exist_ok=True)
+    for fx, name in ((case["builtins"], "builtins.pyi"), (case["typing"], "typing.pyi")):
+        if fx:
+            shutil.copy(os.path.join(REPO, "test-data", "unit", fx), os.path.join(src, name))
+    tick = 1000
+    for rel, txt in [("main", text)] + sorted(case["files"].items()):
+        p = os.path.join(src, rel)
+        os.makedirs(os.path.dirname(p) or src, exist_ok=True)
+        with open(p, "w", encoding="utf8") as f:
+            f.write(txt)
+        tick += 1
+        os.utime(p, (1_000_000 + tick * 10,) * 2)
+    kw = dict(sources=[("main", "__main__")], user_mods="*", record=False, extra_opts={"cli_args_nosrc": flag_list})
+    os.environ["VERIF_NO_ROUNDTRIP"] = "1"
+    cold = W.run_build(src, cache_dir=cache, **kw)
+    if cold.get("crash") or cold["status"] in (3, 4):
+        out["skipped"] = "harness cannot run this case: " + (cold.get("crash") or "")[-200:]
+        return out
+    warm = W.run_build(src, cache_dir=cache, tick=cold["tick"], **kw)
+    out["cold"] = [cold["status"], cold["messages"]]
+    out["warm"] = [warm["status"], warm["messages"], (warm.get("crash") or "")[-300:]]
+    return out
